@@ -68,7 +68,7 @@ func (s *Store) ProposeCommand(req *pb.RaftCmdRequest) (*pb.RaftCmdResponse, err
 		req.Header.RequestId = s.command.nextProposalID()
 	}
 	id := req.Header.RequestId
-	prop, err := s.command.registerProposal(id)
+	prop, err := s.command.registerProposalFor(req.Header)
 	if err != nil {
 		return nil, err
 	}
